@@ -133,6 +133,13 @@ theorem fromPublicKey_regenerated (x y : Nat) (cc : Bytes) :
       (match fromPublicKey x y cc with | .ok e => DR.ok (tup e) | .error _ => DR.err ()) :=
   Secp.Proofs.FrontFromPub.fromPublicKey_regenerated x y cc
 
+/-- `ToPublicSecp256k1` regenerated: the public-key parser applied to `pubKeyBytes` (so, by `pubKeyBytes_regenerated`, to
+    the stored key data of a public key and to the compressed form of k·G for a private one) -/
+theorem toPublicSecp_regenerated (e : ExtKey) :
+    Secp.Gen.Drivers.toPublicSecpGen (tup e) =
+      (match parsePubKey e.pubKeyBytes with | .ok pk => DR.ok pk | .err pe => DR.err pe | .panic => DR.panic) :=
+  Secp.Proofs.FrontFromPub.toPublicSecp_regenerated e
+
 /-- `DeriveWithIL` (the loop over the path with its accumulated tweak, a nil-able big integer) regenerated =
     `deriveWithIL`, for every path of uint32 indices, every starting key of depth below 256 and hash oracles whose
     RIPEMD160∘SHA256 output has at least 4 bytes — so the path-induction theorems above (`tweak…`) speak about the code -/
